@@ -5,6 +5,7 @@ Replies: `(ok payload)`, `(error Kind)`, `(unsupported reason)`, `(bad-request)`
 import FuraxModel.Codec
 import FuraxModel.Reduce
 import FuraxModel.Stokes
+import FuraxModel.Toeplitz
 namespace Furax
 open SExp
 
@@ -45,10 +46,49 @@ def handleStokes (cmd : String) (args : List SExp) : Option SExp :=
     some (list [atom "ok", ofRat (SV.pol (1/2 : Rat) kind x)])
   | _, _ => none
 
+def fnOfList (l : List Rat) : Nat → Rat := fun i => l.getD i 0
+
+/-- `(toeplitz METHOD F (band…) (x…))` → the `l` outputs;  `(toeplitz-dense n (band…))` → the n² entries;
+`(toeplitz-ctor METHOD K FFT|N)`; `(toeplitz-default-fft bandNumber)` -/
+def handleToeplitz (cmd : String) (args : List SExp) : Option SExp :=
+  match cmd, args with
+  | "toeplitz", [atom method, f, b, xs] => do
+    let band ← b.rats?
+    let x ← xs.rats?
+    let F ← f.nat?
+    if band.isEmpty then none else
+    let h := band.length - 1
+    let l := x.length
+    let bf := fnOfList band
+    let xf := fnOfList x
+    let y : Nat → Rat ← match method with
+      | "spec" => some (Toeplitz.toep h l bf xf)
+      | "dense" => some (Toeplitz.applyDense h l bf xf)
+      | "direct" => some (Toeplitz.applyDirect h l bf xf)
+      | "fft" => some (Toeplitz.applyFft h l bf xf)
+      | "overlap_save" => some (Toeplitz.applyOverlapSave F h l bf xf)
+      | _ => none
+    some (list [atom "ok", ofRats ((List.range l).map y)])
+  | "toeplitz-dense", [n, b] => do
+    let band ← b.rats?
+    let n ← n.nat?
+    if band.isEmpty then none else
+    let h := band.length - 1
+    some (list [atom "ok", ofRats ((List.range (n * n)).map (Toeplitz.denseFlat n h (fnOfList band)))])
+  | "toeplitz-ctor", [atom method, k, f] => do
+    let fft ← match f with
+      | atom "N" => some none
+      | e => e.nat?.map some
+    match toeplitzCtor method (← k.nat?) fft with
+    | .valueError => some (list [atom "error", atom "ValueError"])
+    | .ok none => some (list [atom "ok", atom "N"])
+    | .ok (some v) => some (list [atom "ok", ofNat v])
+  | _, _ => none
+
 def handle (line : String) : String :=
   match SExp.parse line with
   | some (list (atom cmd :: args)) =>
-    match (handleLevelA cmd args).orElse (fun _ => handleStokes cmd args) with
+    match ((handleLevelA cmd args).orElse (fun _ => handleStokes cmd args)).orElse (fun _ => handleToeplitz cmd args) with
     | some r => r.toStr
     | none => "(bad-request)"
   | _ => "(bad-request)"
